@@ -395,6 +395,84 @@ def check_invalid_param(case):
                     cost=case["cost"], param=case["param"], kind=case["kind"])
 
 
+# ------------------------------------------------------------------ structured batches on longer series
+
+
+def batch_cells(tier):
+    """Batches with the structure callers really use, on series of 300..6000 samples: back-to-back segments (a complete
+    segmentation, or one that stops before n), many intervals with a common end (look-back windows; increasing, decreasing
+    and shuffled starts) or a common start, nested intervals. Seeded data (numpy PCG64, seed stored)."""
+    i = 0
+    for cost in ("L2Cost", "GaussianVarCost", "GaussianCovCost"):
+        for n in ((300, 5000) if tier == "quick" else (300, 1200, 5000, 6000)):
+            for shape in ("back_to_back_complete", "back_to_back_partial", "common_end_increasing", "common_end_decreasing",
+                          "common_end_shuffled", "common_start", "nested"):
+                for fixed in (False, True):
+                    if cost == "GaussianCovCost" and n > 1200 and shape.startswith("back") is False and tier == "quick" and fixed:
+                        continue
+                    i += 1
+                    yield {"cost": cost, "n": n, "p": 1 + i % 3, "shape": shape, "fixed": fixed, "seed": 30000 + i}
+
+
+def check_batches(case):
+    cost, n, p_, shape = case["cost"], case["n"], case["p"], case["shape"]
+    rng = np.random.Generator(np.random.PCG64(case["seed"]))
+    X = rng.standard_normal((n, p_)) * rng.uniform(0.5, 2.0, size=p_) + rng.normal(size=p_)
+    X[n // 2:] += 1.0
+    ms = p_ + 1 if cost == "GaussianCovCost" else 2
+    if shape.startswith("back_to_back"):
+        cutpoints = np.unique(np.concatenate(([0], np.sort(rng.choice(np.arange(ms * 3, n - ms * 3, ms * 3), size=12, replace=False)),
+                                              [n] if shape.endswith("complete") else [n - 57])))
+        stop = int(cutpoints[-1])
+        kept = [0]
+        for c in cutpoints[1:]:
+            if c - kept[-1] >= ms and (stop - c >= ms or c == stop):
+                kept.append(int(c))
+        cutpoints = np.asarray(kept)
+        cuts = np.column_stack((cutpoints[:-1], cutpoints[1:]))
+    elif shape.startswith("common_end"):
+        end = n - 3
+        starts = np.sort(rng.choice(np.arange(0, end - 40), size=14, replace=False))
+        if shape.endswith("decreasing"):
+            starts = starts[::-1]
+        elif shape.endswith("shuffled"):
+            starts = rng.permutation(starts)
+        cuts = np.column_stack((starts, np.full(starts.size, end)))
+    elif shape == "common_start":
+        ends = rng.permutation(np.sort(rng.choice(np.arange(60, n + 1), size=14, replace=False)))
+        cuts = np.column_stack((np.full(ends.size, 5), ends))
+    else:
+        half = np.arange(1, 12) * (n // 26)
+        cuts = np.column_stack((n // 2 - half, n // 2 + half))
+    cuts = cuts.astype(np.int64)
+    param = None
+    if case["fixed"]:
+        param = {"mean": 0.5}
+        if cost == "GaussianVarCost":
+            param["var"] = 1.5
+        if cost == "GaussianCovCost":
+            param["cov"] = 1.5
+    with sut(f"{cost} on a structured batch"):
+        batch = np.asarray(build_cost(cost, param).fit(X).evaluate(cuts), dtype=float)
+        alone_obj = build_cost(cost, param).fit(X)
+        alone = np.vstack([np.asarray(alone_obj.evaluate(c.reshape(1, -1)), dtype=float) for c in cuts])
+    if batch.shape != alone.shape or not np.all(np.isfinite(batch)):
+        raise Violation("evaluate returned a wrong shape or a non-finite value on a structured batch", shape=shape, n=n, cost=cost)
+    tol = 1e-9 * (1 + np.abs(alone))
+    if np.any(np.abs(batch - alone) > tol):
+        i = int(np.argmax(np.abs(batch - alone).max(axis=1) > tol.max(axis=1)))
+        raise Violation("row for an interval depends on the batch it is evaluated in", shape=shape, n=n, cost=cost, cut=cuts[i].tolist(),
+                        in_batch=batch[i].tolist(), alone=alone[i].tolist())
+    # the single-interval values against the definition (shorter intervals only: the long-double reference is quadratic in p)
+    M = float(np.abs(X).max())
+    for c, row in list(zip(cuts, alone))[:6]:
+        ex = expected_row(cost, param, X, int(c[0]), int(c[1]), n, M)
+        if ex[0] == "interval" and (np.any(row < ex[1]) or np.any(row > ex[2])):
+            raise Violation("cost differs from its definition computed directly from the rows X[s:e]", cost=cost, cut=c.tolist(),
+                            got=row.tolist())
+    return {"nontrivial": True, "classes": [f"cost={cost}", f"shape={shape}", f"n={n}", "mode=" + ("fixed" if param else "optimal")]}
+
+
 # ------------------------------------------------------------------ wide data
 
 
@@ -468,6 +546,13 @@ FACETS = [
         rule=("wrong-length mean/variance, non-positive variance, wrong-shape or non-positive-definite covariance; "
               "fit must raise ValueError; every case is non-trivial"),
         n_quick=300, n_thorough=3000, shards_quick=4, shards_thorough=8,
+    ),
+    Facet(
+        name="structured_batches", kind="enumerate", enumerate=batch_cells, check=check_batches, exhaustive=True, time_limit=300,
+        rule=("series of 300 and 5000 samples (thorough: also 1200, 6000), p 1..3, three costs x optimal / fixed parameters x batch shapes: back-to-back "
+              "segments (complete, or stopping before n), 14 intervals with a common end (increasing / decreasing / shuffled starts) or a common start, "
+              "nested intervals; every row must equal the same interval evaluated alone by a fresh object, and the definition; every cell non-trivial"),
+        shards_quick=16, shards_thorough=16, max_samples=1,
     ),
     Facet(
         name="wide_data", kind="enumerate", enumerate=wide_cells, check=check_wide, exhaustive=True, time_limit=300,
